@@ -306,7 +306,22 @@ class Partial(functools.partial, Generic[_T], metaclass=_Partial):
         # TODO: Use `nested_partial` as a base class? (to instantiate all the partials inside as
         # well?)
         self = cast(Partial, self)
-        return type(self)._target_(*args, **constructor_kwargs)
+        target = type(self)._target_
+        # Positional-only parameters of the target cannot be passed by keyword: pass the leading ones
+        # that weren't given in `args` positionally.
+        positional = list(args)
+        try:
+            parameters = list(inspect.signature(target).parameters.values())
+        except (TypeError, ValueError):
+            parameters = []
+        for i, parameter in enumerate(parameters):
+            if parameter.kind is not inspect.Parameter.POSITIONAL_ONLY:
+                break
+            if i >= len(positional):
+                if parameter.name not in constructor_kwargs:
+                    break
+                positional.append(constructor_kwargs.pop(parameter.name))
+        return target(*positional, **constructor_kwargs)
 
     def __getattr__(self, name: str):
         if name in self.keywords:
